@@ -31,6 +31,10 @@ NPROC = int(os.environ.get("VERIF_JOBS", str(min(16, os.cpu_count() or 1))))
 LEVELS = ("exploration", "fault_enumeration", "model_checking", "proof", "translation_validation", "other")
 
 
+if hasattr(sys, "set_int_max_str_digits"):
+    sys.set_int_max_str_digits(0)  # the harness formats whatever the code under test decoded, however large
+
+
 class HarnessFault(Exception):
     """Something is wrong with the check itself (exit 2)."""
 
@@ -104,7 +108,7 @@ class Ctx:
                 dict(
                     key=key,
                     case=case,
-                    msg=msg,
+                    msg=msg if len(msg) <= 4000 else msg[:4000] + " ...",
                     expected=_jsonable(expected),
                     observed=_jsonable(observed),
                     script=script,
@@ -136,12 +140,24 @@ class Ctx:
         )
 
 
+def _shrink(x):
+    """Integers of more than 400 digits (a changed decoder can produce 2**99999) are replaced by a short description."""
+    if isinstance(x, int) and not isinstance(x, bool) and x.bit_length() > 1330:
+        return "<integer of %d bits>" % x.bit_length()
+    if isinstance(x, (list, tuple)):
+        return [_shrink(v) for v in x]
+    if isinstance(x, dict):
+        return {k: _shrink(v) for k, v in x.items()}
+    return x
+
+
 def _jsonable(x):
+    x = _shrink(x)
     try:
         json.dumps(x)
         return x
     except (TypeError, ValueError):
-        return repr(x)
+        return repr(x)[:4000]
 
 
 # --------------------------------------------------------------------------------------------
